@@ -3,7 +3,7 @@
    the statement is: if an evaluation -- top-level or nested -- wrote an error line, then either its own result is bad
    (MALFORMED_FLAG, or it told its dependents to stop), or during that evaluation an event was recorded whose
    prerequisite result is MALFORMED_FLAG. Every line is accounted for. *)
-From LD Require Import Base F32 Data Semver Model Ops Bucket Eval EvalFacts Safety WellFormed Cycles Trace.
+From LD Require Import Base F32 Data Semver Model Ops Bucket Eval EvalFacts Safety WellFormed Cycles Trace Transparent.
 Open Scope Z_scope.
 
 Definition bad_b (d : detail) : bool := match rs_kind (d_reason d) with RError KMalformed => true | _ => false end.
@@ -229,4 +229,24 @@ Proof.
     destruct (run_error_kinds re_ok re_match o E P c f out k' Hr0 Hk') as [[Hm _]|[_ Hx]]; [subst k'; exact Hk'|contradiction].
   - right. assert (Hp : (0 < List.length (filter bad_event (s_trace s1)))%nat) by (unfold nbadev in Hb; simpl in Hb; lia).
     destruct (nbadev_pos_event _ Hp) as [ev [H1 H2]]. exists ev. split; [|exact H2]. rewrite Htr. apply -> in_rev. exact H1.
+Qed.
+
+(* the same without assuming a recorder: the log lines of an evaluation do not depend on whether events are recorded
+   ([recorder_keeps_log_lines]), so every line written by an evaluator *without* a recorder is accounted for by a
+   MALFORMED_FLAG prerequisite result in the run of the same evaluator with one *)
+Definition with_recorder (o : opts) : opts := mkopts (o_secondary o) (o_logger o) true.
+Theorem every_line_is_accounted_for_any_recorder re_ok re_match o E P c f out k e :
+  run re_ok re_match o E P c f = Done out -> In (OLog k e) (out_trace out) ->
+  rs_kind (d_reason (out_detail out)) = RError KMalformed \/
+  exists out', run re_ok re_match (with_recorder o) E P c f = Done out' /\ out_detail out' = out_detail out /\
+               strip_events (out_trace out') = strip_events (out_trace out) /\
+               exists ev, In (OEvent ev) (out_trace out') /\ bad_detail (ev_detail ev).
+Proof.
+  intros Hr Hin.
+  destruct (recorder_keeps_log_lines re_ok re_match o (with_recorder o) E P c f out eq_refl eq_refl Hr) as [out' [Hr' [Hd [_ Ht]]]].
+  assert (Hin' : In (OLog k e) (out_trace out')).
+  { apply in_strip_events_log. rewrite Ht. apply (proj1 (in_strip_events_log k e (out_trace out))). exact Hin. }
+  destruct (every_line_is_accounted_for re_ok re_match (with_recorder o) E P c f out' k e eq_refl Hr' Hin') as [H|H].
+  - left. rewrite <- Hd. exact H.
+  - right. exists out'. auto.
 Qed.
